@@ -65,7 +65,8 @@ type world struct {
 	mgr     []string // manager-call trace of the hold under observation (traceHold), one line per event
 	smgr    map[string][]string // per observed lock name (traceNames): header, then one line per event
 	thist   []string            // per observed lock name: the Lock/TryLock/Unlock calls as a history for the threaded model M1t
-	reqCancel map[string]context.CancelFunc // per-request contexts (lockReq) by label
+	reqCancel map[string]context.CancelFunc // per-request contexts (newReq / lockReq) by label
+	reqCtx    map[string]context.Context
 }
 
 // traceNames does the same for every hold of the given lock names (one hold per name in the C06
@@ -230,17 +231,24 @@ func (w *world) lock(th, sid, name string, size, lt, wt *int32, label string) {
 }
 // lockReq is a blocking Lock whose REQUEST context (a child of the session's context, as over gRPC)
 // can be cancelled on its own by cancelReq(label) while the session stays connected.
-func (w *world) lockReq(th, sid, name string, size, lt, wt *int32, label string) {
-	w.mu.Lock()
+func (w *world) newReq(label, sid string) {
 	rc, cancel := context.WithCancel(w.sess[sid])
 	if w.reqCancel == nil {
-		w.reqCancel = map[string]context.CancelFunc{}
+		w.reqCancel, w.reqCtx = map[string]context.CancelFunc{}, map[string]context.Context{}
 	}
-	w.reqCancel[label] = cancel
+	w.reqCancel[label], w.reqCtx[label] = cancel, rc
+}
+func (w *world) lockReq(th, sid, name string, size, lt, wt *int32, label string) {
+	w.mu.Lock()
+	rc := w.reqCtx[label]
 	w.mu.Unlock()
+	gone := rc.Err() != nil // the caller gave up before the request reached the server
 	c := w.begin(th, "lock", name, "")
 	lk, err := w.ls.Lock(rc, name, size, lt, wt)
 	ok, key := lk != nil && lk.Locked, ""
+	if gone && ok {
+		w.v("conc:waiter:granted-after-giving-up", "blocking Lock of %q was granted (key %s) although its caller had gone away before the call: a waiter that gives up is never granted the lock afterwards", name, lk.Key)
+	}
 	if ok {
 		key = lk.Key
 		w.mu.Lock()
@@ -505,8 +513,79 @@ func capacityMonitor(w *world, name string, size int, base int) {
 	}
 }
 
+// heldMonitor: a hold that was granted and never unlocked, whose session is alive and which has no
+// lease, is still in the table and its key still unlocks it ("each granted key can be unlocked
+// successfully exactly once").
+func heldMonitor(w *world, sid, name, label string) {
+	key := w.keys[label]
+	_, keys, ok := w.tableKeys(name)
+	if !ok || !containsStr(keys, key) {
+		w.v("conc:nonlinearizable:granted-hold-vanished", "hold %s/%s of the live session %s was granted, never unlocked and has no lease, but is not in the lock table any more", name, label, sid)
+		return
+	}
+	if un, err := w.ls.Unlock(w.sess[sid], name, key); err != nil || !un {
+		w.v("conc:nonlinearizable:granted-key-refused", "Unlock of %s/%s by its holder answered unlocked=%v err=%v although the key was granted and never unlocked", name, label, un, err)
+	}
+}
+
 func templates() []template {
+	reqCancelled := func(name string, noClear bool) template {
+		return template{name: name, props: []string{"C02", "C03"}, bound: 2, prog: func(t *testing.T) conc.Program {
+			return conc.Program{
+				Setup: func() any {
+					cfg := cfgFile()
+					cfg.NoClear = noClear
+					w := newWorld(t, cfg, "s1", "s2")
+					w.mustTry("s1", "x", nil, nil, "h")
+					w.mustTry("s2", "m", nil, nil, "mh")
+					w.newReq("l", "s2")
+					return w
+				},
+				Threads: []conc.Thread{
+					{Name: "L", Run: func(c any) { c.(*world).lockReq("L", "s2", "x", nil, nil, nil, "l") }},
+					{Name: "U", Run: func(c any) { c.(*world).unlock("U", "s1", "x", "h") }},
+					{Name: "C", Run: func(c any) { c.(*world).cancelReq("l") }},
+				},
+				Finish: func(c any) conc.Outcome {
+					w := c.(*world)
+					return finish(w, func() {
+						capacityMonitor(w, "x", 1, 1)
+						linearizable(w, "x", 1, []string{w.keys["h"]})
+						heldMonitor(w, "s2", "m", "mh")
+					})
+				},
+			}
+		}}
+	}
 	return []template{
+		reqCancelled("lock(request-cancelled)||unlock", false),
+		reqCancelled("lock(request-cancelled)||unlock [no-clear]", true),
+		{name: "lock||unlock||trylock(size2);trylock(size2)", props: []string{"C01", "C12"}, bound: 2, prog: func(t *testing.T) conc.Program {
+			return conc.Program{
+				Setup: func() any {
+					w := newWorld(t, cfgGc0(), "s1", "s2", "s3")
+					w.mustTry("s1", "x", nil, nil, "h")
+					return w
+				},
+				Threads: []conc.Thread{
+					{Name: "W", Run: func(c any) { c.(*world).lock("W", "s2", "x", nil, nil, p32(5), "w") }},
+					{Name: "U", Run: func(c any) { c.(*world).unlock("U", "s1", "x", "h") }},
+					{Name: "B", Run: func(c any) {
+						w := c.(*world)
+						w.tryLock("B", "s3", "x", p32(2), nil, "b")
+						w.tryLock("B", "s3", "x", p32(2), nil, "b2")
+					}},
+				},
+				Ticks: []time.Duration{5 * time.Second},
+				Finish: func(c any) conc.Outcome {
+					w := c.(*world)
+					return finish(w, func() {
+						capacityMonitor(w, "x", 1, 1)
+						threadHistory(w, "x", 1, []string{w.keys["h"]})
+					})
+				},
+			}
+		}},
 		{name: "trylock||trylock||gc0||+1ns", props: []string{"C01", "C13"}, bound: 1, prog: func(t *testing.T) conc.Program {
 			return conc.Program{
 				Setup: func() any { return newWorld(t, cfgGc0(), "s1", "s2") },
